@@ -1,6 +1,7 @@
 package props
 
 import (
+	"bytes"
 	"crypto/x509/pkix"
 	"encoding/asn1"
 	"encoding/hex"
@@ -492,6 +493,67 @@ func c03(x *mon.Ctx) {
 	x.Require("tcb-control-second-genuine-signer", nw, 0, nw)
 	x.Require("qe-signer-is-platform-ca", 0, nw, nw)
 	stageEventsForgedUnderDefaultRoot(x)
+
+	// ---- a signature string says nothing by itself: the document that must be refused (OutOfDate, Revoked, foreign FMSPC, wrong
+	//      MRSIGNER …) arrives AFTER a response that carried its signature string next to the acceptable document's member (refused,
+	//      of course: the signature does not fit) — and the acceptable document after a response that carried ITS signature string
+	//      next to the refusable member. Each response is judged by what it holds, whatever was seen before under that signature,
+	//      that member, that URL. Sequential, fresh options every time.
+	{
+		n := 0
+		srs := signedRejects03()
+		for wi := 0; wi < x.Pick(2, 8); wi++ {
+			r := x.Rand(fmt.Sprint("same-signature", wi))
+			good := richHonest(r)
+			if wi%2 == 0 && good.P.TeeTcb[1] == 0 {
+				good.P.TeeTcb[1] = byte(1 + r.Intn(9))
+				good = rebuildFor(good, r)
+			}
+			good.Resign()
+			for si, sr := range srs {
+				bad := good.Clone()
+				sr.apply(bad)
+				bad.Resign()
+				d := docs03[0]
+				if sr.doc == "qe" {
+					d = docs03[1]
+				}
+				jg, jb := good.Tcb.JSON(), bad.Tcb.JSON()
+				bg, bb := good.TcbBody, bad.TcbBody
+				if sr.doc == "qe" {
+					jg, jb, bg, bb = good.Qe.JSON(), bad.Qe.JSON(), good.QeBody, bad.QeBody
+				}
+				sigOf := func(body []byte) string {
+					i := bytes.LastIndex(body, []byte(`"signature":"`)) + len(`"signature":"`)
+					return string(body[i : len(body)-2])
+				}
+				lvl := []int{world.LColl, world.LCrl}[(wi+si)%2]
+				steps := []struct {
+					name, expect string
+					body         []byte
+				}{
+					{"acceptable-member-under-the-refusable-documents-signature", "reject", world.BodyWithSig(d.member, jg, sigOf(bb))},
+					{"the-refusable-document", "reject", bb},
+					{"the-refusable-document-again", "reject", bb},
+					{"refusable-member-under-the-acceptable-documents-signature", "reject", world.BodyWithSig(d.member, jb, sigOf(bg))},
+					{"the-acceptable-document", "accept", bg},
+					{"the-refusable-document-once-more", "reject", bb},
+				}
+				for _, st := range steps {
+					w := good.Clone()
+					d.set(w, st.body, nil)
+					c := w.Case(lvl, "same-signature-string-seen-before", fmt.Sprintf("w%d/%s/%s", wi, sr.name, st.name))
+					c.Expect, c.ShadowSkip = st.expect, true
+					if sr.name == "tcb-module-identities-omitted" && good.P.TeeTcb[1] == 0 {
+						c.Expect = "" // (only bites for module version > 0)
+					}
+					check(x, n, c)
+					n++
+				}
+			}
+		}
+		x.Require("same-signature-string-seen-before", n/8, n/2, n)
+	}
 
 	// ---- "the signature field of the SAME response": an endpoint that answers the same URL twice, differently. First an unsigned
 	//      (or otherwise unusable) document that carries what the signed one is silent about — TDX module identities, a status,
